@@ -1,9 +1,11 @@
 package c03
 
 import (
+	"bytes"
 	"context"
 	"encoding/base64"
 	"fmt"
+	"io"
 	"strings"
 	"sync"
 
@@ -369,6 +371,31 @@ func replayConc(r *common.Run, f []string) error {
 		}
 	}
 	switch f[0] {
+	case "concx":
+		var sc []cliScript
+		for _, x := range f[2:] {
+			i := strings.Index(x, ":")
+			if i < 0 {
+				return fmt.Errorf("bad concx session %q", x)
+			}
+			var c cliScript
+			c.adv = decNames(x[:i])
+			if x[i+1:] != "-" {
+				c.peer = strings.Split(x[i+1:], ",")
+			}
+			sc = append(sc, c)
+		}
+		return runConcClientMixed(r, sched, sc, "replay")
+	case "concm":
+		var sc [][]string
+		for _, x := range f[2:] {
+			if x == "-" {
+				sc = append(sc, nil)
+			} else {
+				sc = append(sc, strings.Split(x, ","))
+			}
+		}
+		return runConcMixed(r, sched, sc, "replay")
 	case "concs":
 		if len(f) < 4 {
 			return fmt.Errorf("bad concs line")
@@ -403,4 +430,419 @@ func replayConc(r *common.Run, f []string) error {
 		runConcClient(r, sched, us, "replay")
 	}
 	return nil
+}
+
+// ---- round E: sessions with DIFFERENT mechanisms and exchanges on one feature value ----
+//
+//	concm <sched> <script>…   receiving sessions on one xmpp.SASLServer(perm, PLAIN, X-ECHO);
+//	      script = the peer's elements (server-role event syntax, "," separated); every element
+//	      is a yield point (it is handed over when the schedule moves the session), so the
+//	      loops of the sessions interleave element by element.  X-ECHO takes two messages and
+//	      answers each with the reversed message (a challenge, then <success/> with data): what
+//	      a session writes depends on every byte it read, so a buffer, a negotiator or a
+//	      selected mechanism that leaks from one session into another shows.  perm accepts
+//	      user/secret.  Answer: per session "<authn> <err> <sent> <perms>", joined by " ; ".
+
+func echoMech() sasl.Mechanism {
+	rev := func(b []byte) []byte {
+		o := make([]byte, len(b))
+		for i := range b {
+			o[len(b)-1-i] = b[i]
+		}
+		return o
+	}
+	return sasl.Mechanism{
+		Name: "X-ECHO",
+		Start: func(*sasl.Negotiator) (bool, []byte, interface{}, error) {
+			return false, nil, nil, sasl.ErrInvalidState
+		},
+		Next: func(m *sasl.Negotiator, c []byte, _ interface{}) (bool, []byte, interface{}, error) {
+			switch m.State() & sasl.StepMask {
+			case sasl.AuthTextSent:
+				return true, rev(c), nil, nil
+			case sasl.ResponseSent:
+				return false, rev(c), nil, nil
+			}
+			return false, nil, nil, sasl.ErrTooManySteps
+		},
+	}
+}
+
+func runConcMixed(r *common.Run, sched []int, scripts [][]string, class string) error {
+	n := len(scripts)
+	S := nc.NewSched(n)
+	var mu sync.Mutex
+	perms := make([][]string, n)
+	perm := func(neg *sasl.Negotiator) bool {
+		i := S.Cur
+		u, p, id := neg.Credentials()
+		us, ps, ids := string(u), string(p), string(id)
+		v := us == "user" && ps == "secret"
+		mu.Lock()
+		perms[i] = append(perms[i], fmt.Sprintf("%s/%s/%s=%s", common.HexS(us), common.HexS(ps), common.HexS(ids), common.B(v)))
+		mu.Unlock()
+		return v
+	}
+	feat := xmpp.SASLServer(perm, sasl.Plain, echoMech()) // ONE feature value for all sessions
+	res := make([]negResult, n)
+	conns := make([]*nc.Conn, n)
+	for i := 0; i < n; i++ {
+		i := i
+		chunks := []nc.Chunk{nc.S(nc.Header("jabber:client", "", "", "example.net"))}
+		for _, ev := range scripts[i] {
+			x, err := srvEventXML(ev)
+			if err != nil {
+				return err
+			}
+			chunks = append(chunks, nc.Chunk{Dyn: func(w []byte) []byte {
+				S.Park(i, "R")
+				if bytes.Contains(w, []byte("<success")) {
+					return nil
+				}
+				return []byte(x)
+			}})
+		}
+		conns[i] = nc.NewConn(chunks...)
+		S.Start(i, func() { res[i] = negotiate(conns[i], true, feat) })
+	}
+	for _, i := range sched {
+		S.Step(i)
+	}
+	S.Finish()
+	var sl []string
+	for _, s := range scripts {
+		sl = append(sl, common.Join(s, ","))
+	}
+	line := fmt.Sprintf("concm %s %s", schedField(sched), strings.Join(sl, " "))
+	lines := []string{r.Prop + " " + line}
+	var obs []string
+	for i := 0; i < n; i++ {
+		if res[i].panicV != "" {
+			obs = append(obs, "PANIC")
+			r.Fail("server-no-panic", "concurrent-mixed", lines, res[i].panicV)
+			continue
+		}
+		var t trace
+		streams, _ := nc.ParseWritten(conns[i].Written())
+		var sent []string
+		if len(streams) > 0 {
+			for _, e := range streams[0].Elems {
+				switch {
+				case e.Name.Space == nsSASL && e.Name.Local == "success":
+					sent = append(sent, "succ/"+canonPayload(e.Text))
+				case e.Name.Space == nsSASL && e.Name.Local == "failure":
+					cond := "none"
+					if len(e.Kids) > 0 {
+						cond = e.Kids[0].Name.Local
+					}
+					sent = append(sent, "fail/"+cond)
+				case e.Name.Space == nsSASL && e.Name.Local == "challenge":
+					sent = append(sent, "chal/"+canonPayload(e.Text))
+				}
+			}
+		}
+		authn := res[i].called > 0 && res[i].mask&xmpp.Authn != 0
+		obs = append(obs, fmt.Sprintf("%s %s %s %s", common.B(authn), errClass(res[i], &t), common.Join(sent, ","), common.Join(perms[i], ",")))
+		// ---- oracle (independent of the model): a session is authenticated only by its OWN
+		// complete exchange: an <auth/> of its own for PLAIN with the accepted credentials, or
+		// an <auth/> for X-ECHO followed by a <response/>, both decodable
+		own := false
+		sc := scripts[i]
+		if len(sc) >= 1 && sc[0] == "APLAIN/v"+hexOf("\x00user\x00secret") {
+			own = true
+		}
+		if len(sc) >= 2 && strings.HasPrefix(sc[0], "AX-ECHO/") && strings.HasPrefix(sc[1], "R") &&
+			!strings.Contains(sc[0], "bad") && !strings.Contains(sc[1], "bad") {
+			own = true
+		}
+		if authn && !own {
+			r.Fail("sessions-independent", "authenticated-by-another-sessions-exchange", lines,
+				fmt.Sprintf("session %d (script %v) is authenticated although its own exchange is not a complete, accepted one", i, sc))
+		}
+	}
+	if S.Stalled {
+		r.Fail("sessions-no-stall", "server-mixed", lines, "a session did not reach its next yield point: "+strings.Join(S.Trace, " "))
+	}
+	r.Line(line, strings.Join(obs, " ; "))
+	r.Case(line, true, class)
+	return nil
+}
+
+func hexOf(s string) string { return fmt.Sprintf("%x", s) }
+
+var mixedScripts = [][]string{
+	{"AX-ECHO/v" + "616263", "Rv" + strings.Repeat("7a", 40)}, // X-ECHO, short then long
+	{"APLAIN/v" + fmt.Sprintf("%x", "\x00user\x00secret")},    // PLAIN accepted
+	{"Rv01"}, // a bare <response/>
+	{"AX-ECHO/v" + strings.Repeat("31", 64), "Rv02", "Rv03"},       // X-ECHO, long then short, one element too many
+	{"APLAIN/v" + fmt.Sprintf("%x", "\x00user\x00secreX"), "Rv04"}, // PLAIN refused, then a response
+	{"AX-ECHO/-", "R-"}, // X-ECHO with empty messages
+	{"AX-ECHO/v" + "0a0b", "APLAIN/v" + fmt.Sprintf("%x", "\x00u\x00no")}, // a second <auth/> replaces the negotiator
+}
+
+func genConcMixed(r *common.Run, rnd *common.Rand) {
+	if r.Race() {
+		return
+	}
+	// two sessions: every ordered pair of scripts x every interleaving of their elements (each
+	// element and the end of the script is a yield point)
+	for a, sa := range mixedScripts {
+		for b, sb := range mixedScripts {
+			if r.Quick() && (a+b)%2 == 1 && a != 2 && b != 2 {
+				continue
+			}
+			na, nb := len(sa), len(sb)
+			interleave2(na, nb, func(s []int) {
+				_ = runConcMixed(r, s, [][]string{sa, sb}, "conc-mixed2")
+			})
+		}
+	}
+	// three sessions: random triples, random schedules
+	for k := 0; k < r.Pick(40, 400); k++ {
+		var sc [][]string
+		var sched []int
+		for i := 0; i < 3; i++ {
+			s := mixedScripts[rnd.Intn(len(mixedScripts))]
+			sc = append(sc, s)
+			for j := 0; j < len(s); j++ {
+				sched = append(sched, i)
+			}
+		}
+		for i := len(sched) - 1; i > 0; i-- {
+			j := rnd.Intn(i + 1)
+			sched[i], sched[j] = sched[j], sched[i]
+		}
+		_ = runConcMixed(r, sched, sc, "conc-mixed3")
+	}
+}
+
+// interleave2 enumerates every interleaving of na moves of session 0 and nb moves of session 1
+func interleave2(na, nb int, f func([]int)) {
+	var rec func(a, b int, cur []int)
+	rec = func(a, b int, cur []int) {
+		if a == 0 && b == 0 {
+			f(append([]int(nil), cur...))
+			return
+		}
+		if a > 0 {
+			rec(a-1, b, append(cur, 0))
+		}
+		if b > 0 {
+			rec(a, b-1, append(cur, 1))
+		}
+	}
+	rec(na, nb, nil)
+}
+
+// ---- round E: initiating sessions with DIFFERENT advertised lists and exchanges on one value ----
+//
+//	concx <sched> <adv>:<script>…   initiating sessions user@example.net on one
+//	      xmpp.SASL("", "secret", X-ECHOC, PLAIN); adv = what the peer advertises to that session
+//	      (names, "-" = an empty list), script = the peer's elements (client-role event syntax).
+//	      The features list, the entry of the feature's Negotiate (between Parse and the use of
+//	      the parsed list) and every element are yield points.  X-ECHOC starts with "hi" and
+//	      answers its two challenges with the reversed challenge.  Answer: per session
+//	      "<authn> <err> <sent>", joined by " ; ".
+
+func echoClientMech() sasl.Mechanism {
+	rev := func(b []byte) []byte {
+		o := make([]byte, len(b))
+		for i := range b {
+			o[len(b)-1-i] = b[i]
+		}
+		return o
+	}
+	return sasl.Mechanism{
+		Name: "X-ECHOC",
+		Start: func(*sasl.Negotiator) (bool, []byte, interface{}, error) {
+			return true, []byte("hi"), nil, nil
+		},
+		Next: func(m *sasl.Negotiator, c []byte, _ interface{}) (bool, []byte, interface{}, error) {
+			switch m.State() & sasl.StepMask {
+			case sasl.AuthTextSent:
+				return true, rev(c), nil, nil
+			case sasl.ResponseSent:
+				return false, rev(c), nil, nil
+			}
+			return false, nil, nil, sasl.ErrTooManySteps
+		},
+	}
+}
+
+type cliScript struct {
+	adv  []string
+	peer []string
+}
+
+func (c cliScript) field() string { return encNames(c.adv) + ":" + common.Join(c.peer, ",") }
+
+func runConcClientMixed(r *common.Run, sched []int, scripts []cliScript, class string) error {
+	n := len(scripts)
+	S := nc.NewSched(n)
+	feat := xmpp.SASL("", "secret", echoClientMech(), sasl.Plain) // ONE feature value for all sessions
+	res := make([]negResult, n)
+	conns := make([]*nc.Conn, n)
+	origin := jid.MustParse("user@example.net")
+	for i := 0; i < n; i++ {
+		i := i
+		adv := advXML(scripts[i].adv)
+		chunks := []nc.Chunk{nc.S(nc.Header("jabber:client", "sid1", "example.net", origin.String())),
+			{Dyn: func([]byte) []byte { S.Park(i, "F"); return []byte(adv) }}}
+		for _, ev := range scripts[i].peer {
+			x, err := cliEventXML(ev)
+			if err != nil {
+				return err
+			}
+			chunks = append(chunks, nc.Chunk{Dyn: func(w []byte) []byte {
+				S.Park(i, "R")
+				if bytes.Count(w, []byte("<?xml")) > 1 {
+					return nil
+				}
+				return []byte(x)
+			}})
+		}
+		conns[i] = nc.NewConn(chunks...)
+		S.Start(i, func() {
+			rr := &res[i]
+			rr.conn = conns[i]
+			f := instrument(feat, rr)
+			// a yield point between the feature's Parse (the advertised list is read) and its
+			// Negotiate (the list is used)
+			inner := f.Negotiate
+			f.Negotiate = func(ctx context.Context, s *xmpp.Session, data interface{}) (xmpp.SessionState, io.ReadWriter, error) {
+				S.Park(i, "N")
+				return inner(ctx, s, data)
+			}
+			neg := xmpp.NewNegotiator(func(*xmpp.Session, *xmpp.StreamConfig) xmpp.StreamConfig {
+				return xmpp.StreamConfig{Features: []xmpp.StreamFeature{f}}
+			})
+			rr.panicV = common.Recover(func() {
+				s, err := xmpp.NewSession(context.Background(), jid.MustParse("example.net"), origin, conns[i], xmpp.Secure, neg)
+				rr.sessErr = err
+				if s != nil {
+					rr.state = s.State()
+				}
+			})
+		})
+	}
+	for _, i := range sched {
+		S.Step(i)
+	}
+	S.Finish()
+	var sl []string
+	for _, s := range scripts {
+		sl = append(sl, s.field())
+	}
+	line := fmt.Sprintf("concx %s %s", schedField(sched), strings.Join(sl, " "))
+	lines := []string{r.Prop + " " + line}
+	var obs []string
+	for i := 0; i < n; i++ {
+		if res[i].panicV != "" {
+			obs = append(obs, "PANIC")
+			r.Fail("client-no-panic", "concurrent-mixed", lines, res[i].panicV)
+			continue
+		}
+		var t trace
+		streams, _ := nc.ParseWritten(conns[i].Written())
+		var sent []string
+		usedMech := ""
+		if len(streams) > 0 {
+			for _, e := range streams[0].Elems {
+				switch {
+				case e.Name.Space == nsSASL && e.Name.Local == "auth":
+					m, _ := e.AttrVal("mechanism")
+					usedMech = m
+					sent = append(sent, "auth/"+encName(m)+"/"+canonPayload(e.Text))
+				case e.Name.Space == nsSASL && e.Name.Local == "response":
+					sent = append(sent, "resp/"+canonPayload(e.Text))
+				}
+			}
+		}
+		authn := res[i].called > 0 && res[i].mask&xmpp.Authn != 0
+		ec := errClass(res[i], &t)
+		if res[i].called == 0 {
+			ec = "notcalled"
+		}
+		obs = append(obs, fmt.Sprintf("%s %s %s", common.B(authn), ec, common.Join(sent, ",")))
+		// ---- oracle (independent of the model) ----
+		advertised := func(m string) bool {
+			for _, a := range scripts[i].adv {
+				if a == m {
+					return true
+				}
+			}
+			return false
+		}
+		if usedMech != "" && !advertised(usedMech) {
+			r.Fail("sessions-independent", "client-used-mechanism-advertised-to-another-session", lines,
+				fmt.Sprintf("session %d sent <auth mechanism=%q/> although its peer advertised %v", i, usedMech, scripts[i].adv))
+		}
+		if authn {
+			p := scripts[i].peer
+			okOwn := usedMech != "" && advertised(usedMech) && len(p) > 0
+			if okOwn {
+				// its own script must hold a <success/> and, for X-ECHOC, the two challenges before it
+				succ := -1
+				for k, ev := range p {
+					if ev[0] == 's' {
+						succ = k
+						break
+					}
+				}
+				okOwn = succ >= 0 && (usedMech == "PLAIN" && succ == 0 || usedMech == "X-ECHOC" && succ >= 1)
+			}
+			if !okOwn {
+				r.Fail("sessions-independent", "client-authenticated-by-another-sessions-exchange", lines,
+					fmt.Sprintf("session %d (advertised %v, script %v) is authenticated although its own exchange is not a complete one", i, scripts[i].adv, p))
+			}
+		}
+	}
+	if S.Stalled {
+		r.Fail("sessions-no-stall", "client-mixed", lines, "a session did not reach its next yield point: "+strings.Join(S.Trace, " "))
+	}
+	r.Line(line, strings.Join(obs, " ; "))
+	r.Case(line, true, class)
+	return nil
+}
+
+var mixedCliScripts = []cliScript{
+	{[]string{"X-ECHOC"}, []string{"cv010203", "cv" + strings.Repeat("7a", 40), "s-"}}, // the complete exchange
+	{[]string{"PLAIN"}, []string{"s-"}},                                                // PLAIN
+	{nil, []string{"s-"}},                                                              // nothing advertised, a bare <success/>
+	{[]string{"X-ECHOC", "PLAIN"}, []string{"s-"}},                                     // premature <success/>
+	{[]string{"PLAIN", "X-ECHOC"}, []string{"cv01", "sv0203"}},                         // done on <success/> with data
+	{[]string{"X-ECHOC"}, []string{"f"}},                                               // refused
+	{[]string{"X-OTHER"}, []string{"cv05", "s-"}},                                      // nothing in common
+}
+
+func genConcClientMixed(r *common.Run, rnd *common.Rand) {
+	if r.Race() {
+		return
+	}
+	for a, sa := range mixedCliScripts {
+		for b, sb := range mixedCliScripts {
+			if r.Quick() && (a+b)%2 == 1 && a != 2 && b != 2 && a != 6 && b != 6 {
+				continue
+			}
+			interleave2(len(sa.peer)+2, len(sb.peer)+2, func(s []int) {
+				_ = runConcClientMixed(r, s, []cliScript{sa, sb}, "conc-cli-mixed2")
+			})
+		}
+	}
+	for k := 0; k < r.Pick(40, 400); k++ {
+		var sc []cliScript
+		var sched []int
+		for i := 0; i < 3; i++ {
+			s := mixedCliScripts[rnd.Intn(len(mixedCliScripts))]
+			sc = append(sc, s)
+			for j := 0; j <= len(s.peer)+1; j++ {
+				sched = append(sched, i)
+			}
+		}
+		for i := len(sched) - 1; i > 0; i-- {
+			j := rnd.Intn(i + 1)
+			sched[i], sched[j] = sched[j], sched[i]
+		}
+		_ = runConcClientMixed(r, sched, sc, "conc-cli-mixed3")
+	}
 }
